@@ -42,8 +42,13 @@ def cases(tier, seed):
             if gq == 'under' and fb != 'SSSS':
                 continue
         out.append(dict(kind='panel', model=model, lam=lam, fbase=fb, m=m, n=n, state=st, gq=gq, form=form, seed=seed))
-    for conn, order, st in itertools.product(['SSycte', 'SSxcte', 'BFycte', 'SB'], ['p1first', 'p2first'], ['moderate', 'large']):
-        out.append(dict(kind='assembly', conn=conn, order=order, state=st, seed=seed))
+        if lam == 'general' and form == '6x6' and gq == 'exact' and fb == 'SSSS' and (m, n) in [(2, 2), (3, 2)] and st in ('zero', 'tiny', 'moderate'):
+            out.append(dict(kind='panel', model=model, lam=lam, fbase=fb, m=m, n=n, state=st, gq=gq, form=form, preload=1, seed=seed))
+        if lam == 'general' and form == '6x6' and gq == 'exact' and fb == 'generic' and (m, n) in [(2, 2), (3, 2)]:
+            out.append(dict(kind='panel', model=model, lam=lam, fbase=fb, m=m, n=n, state=st, gq=gq, form=form, ortho=1, seed=seed))
+    for conn, order, st, hist in itertools.product(['SSycte', 'SSxcte', 'BFycte', 'SB'], ['p1first', 'p2first'], ['moderate', 'large'],
+                                                   ['plain', 'kT_nofinalize_first', 'k0_nofinalize_first']):
+        out.append(dict(kind='assembly', conn=conn, order=order, state=st, hist=hist, seed=seed))
     return out
 
 
@@ -86,6 +91,13 @@ def check_panel(case):
     ref, lam = pan.make_ref(cfg)
     ref = ref.base
     F, h = lam['ABD'], lam['h']
+    if case.get('preload'):
+        p.Nxx_cte, p.Nyy_cte, p.Nxy_cte = -2.0e3, 0.7e3, 0.4e3
+    if case.get('ortho'):
+        p.force_orthotropic_laminate = True
+        F = F.copy()
+        for (i, j) in ((0, 2), (1, 2), (0, 5), (1, 5), (3, 2), (4, 2), (3, 5), (4, 5)):
+            F[i, j] = F[j, i] = 0.0
     nx, ny = gauss_orders(case['m'], case['n'], case['gq'])
     c = make_state(ref, h, case['state'], seed)
     if case['form'] == '6x6':
@@ -98,6 +110,10 @@ def check_panel(case):
         Fref = Fin.reshape(nx * ny, 6, 6)
     fails = []
     k0 = pan.dense(p.calc_k0(silent=True))
+    k0r = ref.k0(F) + (ref.kG(-2.0e3, 0.7e3, 0.4e3) if case.get('preload') else 0.0)
+    if np.abs(k0 - k0r).max() > 1e-10 * np.abs(k0r).max():
+        fails.append(fail('linear stiffness differs from the strain-energy Hessian for the laminate used by the non-linear quantities', sig=None, case=case,
+                          rel=float(np.abs(k0 - k0r).max() / np.abs(k0r).max())))
     kw = dict(nx=nx, ny=ny, silent=True)
     if Fin is not None:
         kw['Fnxny'] = Fin
@@ -119,6 +135,10 @@ def check_panel(case):
     # reference gradient / Hessian at the same quadrature points
     fr = ref.fint(c, Fref, nx, ny)
     KTr = ref.kT(c, Fref, nx, ny)[0]
+    if case.get('preload'):
+        KGc = ref.kG(-2.0e3, 0.7e3, 0.4e3)
+        fr = fr + KGc.dot(c)
+        KTr = KTr + KGc
     scf = np.abs(KTr).dot(np.abs(c)).max() + 1e-300
     if np.abs(f0 - fr).max() > 1e-9 * scf:
         fails.append(fail('internal force differs from the gradient of the strain energy', sig=None, case=case, nx=nx, ny=ny,
@@ -209,6 +229,11 @@ def check_assembly(case):
     c = 0.02 * h * g
     c[2::3] = (0.5 if case['state'] == 'moderate' else 3.0) * h * g[2::3]
     cin = c.copy()
+    # call history letter: an un-finalised evaluation first (as an enclosing assembly loop would request)
+    if case.get('hist') == 'kT_nofinalize_first':
+        assy.calc_kT(c=c.copy(), silent=True, finalize=False)
+    elif case.get('hist') == 'k0_nofinalize_first':
+        assy.calc_k0(silent=True, finalize=False)
     f = np.asarray(assy.calc_fint(cin, silent=True), dtype=float)
     kT = pan.dense(assy.calc_kT(c=cin, silent=True))
     kc = pan.dense(assy.get_k0_conn())
